@@ -38,6 +38,21 @@ FAULTS = [
     ("missing-attribute", ["<%def>", "x", "</%def>"], 0, 0),
     ("illegal-attribute", ['<%include file="a.html" bogus="1"/>'], 0, 0),
     ("missing-include-file", ["<%include/>"], 0, 0),
+    # misplaced constructs found while generating code, and the remaining attribute / keyword checks
+    ("anonymous-block-in-namespace", ['<%namespace name="n">', '<%def name="ok()">x</%def>', '  <%block>anon</%block>', '</%namespace>'], 2, 3),
+    ("named-block-in-call", ['<%def name="c()">${caller.body()}</%def>', '<%self:c>', '   <%block name="inner">x</%block>', '</%self:c>'], 2, 4),
+    ("def-then-block-of-the-same-name", ['<%def name="dd()">a</%def>', '', ' <%block name="dd">b</%block>'], 2, 2),
+    ("expression-in-plain-attribute", ['<%def name="${x}()">', 'b', '</%def>'], 0, 0),
+    ("namespace-without-name", ['<%namespace file="a.html"/>'], 0, 0),
+    ("namespace-file-and-module", ['<%namespace name="q" file="a.html" module="os"/>'], 0, 0),
+    ("def-without-parenthesis", ['<%def name="foo">', 'x', '</%def>'], 0, 0),
+    ("block-with-signature", ['<%block name="b(x)">', 'x', '</%block>'], 0, 0),
+    ("anonymous-block-with-args", ['<%block args="x">', 'x', '</%block>'], 0, 0),
+    ("illegal-ternary", ['% for i in []:', 'x', '% elif y:', '% endfor'], 2, 0),
+    ("invalid-control-line", ['% ???'], 0, 0),
+    ("unsupported-control-keyword", ['% foo x:', 'y'], 0, 0),
+    ("not-a-partial-control", ['% if x', 'y', '% endif'], 0, 0),
+    ("import-star", ['<%', '  a = 1', '  from os import *', '%>'], None, 0),
 ]
 
 PREFIXES = [
@@ -127,6 +142,8 @@ def run_case(args):
             ctl = fault[1][0].startswith("%")          # a control line is matched from the start of its line, indentation included
             if fault[2] == 0 and fault[0] != "py-filter-list" and pos != (1 if ctl else exp_col) and ln == exp_line:
                 problems.append("%s: column %r reported, the construct begins at column %d" % (path, pos, exp_col))
+            if fault[2] and fault[3] and ln == exp_line and pos != fault[3]:
+                problems.append("%s: column %r reported, the offending construct begins at column %d of its line" % (path, pos, fault[3]))
             if path != "string" and efile != fn:
                 problems.append("%s: filename %r, the template is %r" % (path, efile, fn))
             if not src_ok:
